@@ -31,6 +31,25 @@ Section Eval.
     intros W E Hl [H|[H P]]; [left; auto|right]. split; auto. eapply GL_mono; eauto.
   Qed.
 
+  (** [interrupted] is only raised by a [should_continue] call that answered [false] *)
+  Definition int_ok (s s' : state) : Prop :=
+    sci s <= sci s' /\
+    (interrupted s' = true -> interrupted s = true \/ exists i, sci s <= i /\ i < sci s' /\ sc cf i = false).
+
+  Lemma int_ok_eq s s' : sci s <= sci s' -> interrupted s' = interrupted s -> int_ok s s'.
+  Proof. intros H1 H2. split; auto. rewrite H2. auto. Qed.
+
+  Lemma int_ok_refl s : int_ok s s.
+  Proof. apply int_ok_eq; auto. Qed.
+
+  Lemma int_ok_trans s1 s2 s3 : int_ok s1 s2 -> int_ok s2 s3 -> int_ok s1 s3.
+  Proof.
+    intros [A1 A2] [B1 B2]. split; [lia|]. intros H.
+    destruct (B2 H) as [H2|[i [I1 [I2 I3]]]].
+    - destruct (A2 H2) as [H1|[i [I1 [I2 I3]]]]; auto. right. exists i. repeat split; auto; lia.
+    - right. exists i. repeat split; auto; lia.
+  Qed.
+
   (** what every step of an evaluation under the top node [t] guarantees *)
   Record frame (s s' : state) (t : nat) (m m' : mn) : Prop := {
     fr_wf : WF s';
@@ -40,6 +59,7 @@ Section Eval.
     fr_new : forall d nd, nodeat s' d nd -> length (sgraph s) <= d -> mn_le m' (gn_links nd);
     fr_path : forall l, m' = Some l -> m = Some l \/ length (sgraph s) <= l \/
                 (l < length (sgraph s) /\ exists nd, nodeat s l nd /\ path G t (gn_goal nd));
+    fr_int : int_ok s s';
   }.
 
   Lemma frame_refl s t m : WF s -> SI s -> frame s s t m m.
@@ -49,6 +69,7 @@ Section Eval.
     - apply mn_le_refl.
     - intros d nd H Hd. unfold nodeat in H.
       assert (d < length (sgraph s)) by (apply nth_error_Some; congruence). lia.
+    - apply int_ok_refl.
   Qed.
 
   Lemma nodeat_back s s' d nd : ext s s' -> nodeat s' d nd -> d < length (sgraph s) -> nodeat s d nd.
@@ -78,6 +99,7 @@ Section Eval.
         * right; left; auto.
         * right; right. split; auto. exists nd. split; auto.
           eapply nodeat_back; eauto. apply (fr_ext _ _ _ _ _ A).
+    - eapply int_ok_trans; [apply (fr_int _ _ _ _ _ A)|apply (fr_int _ _ _ _ _ B)].
   Qed.
 
   (** ** specification of [solve_goal] as used by the clause evaluation *)
